@@ -103,6 +103,11 @@ def judge(act, f_start, x_start, add, tag):
                 {"tag": tag, "from": na, "to": nb, "f_from": a, "f_to": b, "message": str(act.result.message), "sequence": vals[:12]},
             )
             break
+    # every failed line search leaves the iterate where it was: the next search starts from the same point
+    for a0, a1 in zip(act.ls_log[:-1], act.ls_log[1:]):
+        if a0[2] is None and a0[4] is not None and a1[4] is not None and a0[4] != a1[4]:
+            add("failed_search_moved_x", {"tag": tag, "where": "between two searches"})
+            break
     # a failed last line search leaves the iterate where it was
     if act.ls_log and act.ls_log[-1][2] is None:
         last_x = act.states[-1]["snap"]["x"] if act.states else x_start
@@ -171,7 +176,7 @@ def execute(plan):
     fcount = np.cumsum([1 if e[0] == "fun" else 0 for e in A.events])
     N = int(fcount[-1]) if len(fcount) else 0
     windows = []
-    for ev0, ev1, step, _dn in A.ls_log:
+    for ev0, ev1, step, *_rest in A.ls_log:
         f0 = int(fcount[ev0 - 1]) if ev0 >= 1 else 0
         f1 = int(fcount[ev1 - 1]) if ev1 >= 1 else 0
         windows.append((f0, f1, step))
